@@ -68,7 +68,24 @@ pub fn execute_memoized_function<Db: Database>(
         db.get_storage().top_level_calls.push(derived_node_id);
     }
 
-    let (did_recalculate, time_updated) = if let Some((derived_node, revision)) = db
+    let (did_recalculate, time_updated) = bring_up_to_date(db, derived_node_id, inner_fn);
+    db.get_storage().register_dependency_in_parent_memoized_fn(
+        NodeKind::Derived(derived_node_id),
+        time_updated,
+    );
+    did_recalculate
+}
+
+/// Verify the [`DerivedNode`] and re-invoke the function if needed, as described on
+/// [`execute_memoized_function`], but do not register it with a caller: while a
+/// dependency is merely being verified there is no memoized function on top of the
+/// dependency stack that called it, and it is not a top-level call either.
+fn bring_up_to_date<Db: Database>(
+    db: &Db,
+    derived_node_id: DerivedNodeId,
+    inner_fn: InnerFn<Db>,
+) -> (DidRecalculate, Epoch) {
+    if let Some((derived_node, revision)) = db
         .get_storage()
         .internal
         .get_derived_node_and_revision(derived_node_id)
@@ -95,12 +112,7 @@ pub fn execute_memoized_function<Db: Database>(
     } else {
         let _create_span = debug_span!("creating_new_derived_node").entered();
         create_derived_node(db, derived_node_id, inner_fn)
-    };
-    db.get_storage().register_dependency_in_parent_memoized_fn(
-        NodeKind::Derived(derived_node_id),
-        time_updated,
-    );
-    did_recalculate
+    }
 }
 
 fn create_derived_node<Db: Database>(
@@ -243,7 +255,7 @@ fn derived_node_changed_since<Db: Database>(
     } else {
         return true;
     };
-    let did_recalculate = execute_memoized_function(db, derived_node_id, inner_fn);
+    let (did_recalculate, _) = bring_up_to_date(db, derived_node_id, inner_fn);
     matches!(
         did_recalculate,
         DidRecalculate::Recalculated | DidRecalculate::Error
